@@ -83,23 +83,23 @@ type Snap struct {
 
 // Model is the reference model of one replica.
 type Model struct {
-	Size     int64
-	Live     *Image
-	Snaps    map[string]*Snap // by disk name; live-chain snapshots only
-	Orphans  map[string]bool  // disk names left behind by reverts (files still on disk)
-	Chain    []string         // live path: head first, base last (disk names)
-	HeadNo   int
-	Counter  int64
-	Mode     string // INIT, RW, WO
-	Open     bool
-	Punch    bool
-	PunchEver bool
+	Size       int64
+	Live       *Image
+	Snaps      map[string]*Snap // by disk name; live-chain snapshots only
+	Orphans    map[string]bool  // disk names left behind by reverts (files still on disk)
+	Chain      []string         // live path: head first, base last (disk names)
+	HeadNo     int
+	Counter    int64
+	Mode       string // INIT, RW, WO
+	Open       bool
+	Punch      bool
+	PunchEver  bool
 	Checkpoint string
 	Rebuilding bool
-	MaxChain int
+	MaxChain   int
 }
 
-func headName(n int) string { return fmt.Sprintf("volume-head-%03d.img", n) }
+func headName(n int) string       { return fmt.Sprintf("volume-head-%03d.img", n) }
 func snapDisk(name string) string { return "volume-snap-" + name + ".img" }
 
 func NewModel(size int64, maxChain int) *Model {
